@@ -23,13 +23,13 @@ import (
 // C09: one message per frame — SSE events and stdio lines never interleave.
 
 type C09Case struct {
-	Target   string `json:"target"`   // stdio-server, get-stream, legacy-sse, stdio-client
-	Writers  int    `json:"writers"`  // concurrent writers
-	Sizes    []int  `json:"sizes"`    // payload size per writer (bytes of padding)
-	Class    string `json:"class"`    // string class of the padding
+	Target   string `json:"target"`            // stdio-server, get-stream, legacy-sse, stdio-client
+	Writers  int    `json:"writers"`           // concurrent writers
+	Sizes    []int  `json:"sizes"`             // payload size per writer (bytes of padding)
+	Class    string `json:"class"`             // string class of the padding
 	StallMs  int    `json:"stallms,omitempty"` // get-stalled: how long the peer takes no bytes
-	Jitter   []int  `json:"jitter"`   // per-write delay seeds (k*20us), cycled
-	Schedule string `json:"schedule"` // optional exact order of write steps for the first writers, e.g. "abab"
+	Jitter   []int  `json:"jitter"`            // per-write delay seeds (k*20us), cycled
+	Schedule string `json:"schedule"`          // optional exact order of write steps for the first writers, e.g. "abab"
 	Rounds   int    `json:"rounds"`
 }
 
